@@ -270,6 +270,16 @@ def build_program(tree, value):
                  [['println', ['var', 'r']]]],
                 ['repeat', ['range', 'r', ['num', '2'], E],
                  [['println', ['var', 'r']]]]])
+        if integral and 0 <= value <= 9:
+            # the loop variable is one of the expression's own operands: the
+            # bound is worked out before the variable gets its first value
+            block('bound-mentions-loop-variable', [
+                ['repeat', ['range', 'a', ['num', '0'], E],
+                 [['println', ['var', 'a']]]],
+                ['assign', 'a', ['num', '3']],
+                ['repeat', ['range', 'x', E, ['num', '9']],
+                 [['println', ['var', 'x']]]],
+                ['assign', 'x', ['num', '7']]])
         if integral and 0 <= value <= 7:
             v = int(value)
             block('zone-row-column', [
